@@ -1038,6 +1038,8 @@ class Engine:
         idxs = [c[0] for c in saved_ctx] + [j]
         elem_j = at(j)
         jpat = [elem_j.t] if isinstance(elem_j, V) and elem_j.t is not None and z3.is_app(elem_j.t) and not z3.is_const(elem_j.t) else []
+        if not jpat and isinstance(it, V) and isinstance(it.ty, TSeq):
+            jpat = [SQ.at(it.t, j)]  # elements unpacked into python-level tuples: trigger on the raw element access
         for h in local:
             if h.eq(z3.simplify(rng)) or h.eq(rng):
                 continue
@@ -1085,7 +1087,7 @@ class Engine:
         res = self.fresh(st, TSeq(et), "comp")
         if not conds:
             st.assume(SQ.length(res.t) == ln)
-            st.assume(SQ.forall([j], z3.Implies(z3.And(0 <= j, j < ln), SQ.at(res.t, j) == bterm), patterns=[SQ.at(res.t, j)]))
+            st.assume(SQ.forall([j], z3.Implies(z3.And(0 <= j, j < ln), SQ.at(res.t, j) == bterm), patterns=[SQ.at(res.t, j)] + jpat))
         else:
             # filter: membership characterisation (+ length bound; order preservation is not encoded)
             x = z3.Const(f"cx!{st.fresh_n}", et.sort())
@@ -1832,6 +1834,14 @@ class Engine:
         envi.update(self.spec_env(body_st))
         self.assume_invs(body_st, spec, envi)
         body_st.env[idx_name] = i  # ghost: visible to invariants of nested loops
+        # prefix stepping lemma for the iterated sequence: it[:i+1] == it[:i] + [it[i]]
+        seq_t = None
+        if isinstance(it, V) and isinstance(it.ty, TSeq):
+            seq_t = it.t
+        elif isinstance(it, V) and isinstance(it.ty, TDict):
+            seq_t = it.ty.sort().keys(it.t)
+        if seq_t is not None:
+            body_st.assume(SQ.take(seq_t, i.t + 1) == SQ.append1(SQ.take(seq_t, i.t), SQ.at(seq_t, i.t)))
         self.bind_target(s.target, at(i.t), body_st, s)
         for st2, out in self.exec_block(s.body, body_st):
             if out is None or out[0] == "continue":
